@@ -381,6 +381,115 @@ def check_variants(spec, m, plan_desc, res, bad, methods):
                     return
 
 
+# ---------------------------------------------------------------------------
+# plans that mix the two modes: one unanticipated and one anticipated swap (first order)
+# ---------------------------------------------------------------------------
+
+def mixed_plans(spec):
+    n = spec.n
+    out = []
+    for j, k in itertools.permutations(range(n), 2):
+        for i, l in itertools.permutations(range(n), 2):
+            for d1 in (1, 2, 3):
+                for d2 in (1, 2, 3, 4):
+                    out.append((j, i, d1, k, l, d2))       # v_j@d1 <- e_i@d1 (unanticipated) ; v_k@d2 <- ant_e_l@d2
+    return out
+
+
+def check_mixed_plan(spec, m, plan_desc, res, ctx):
+    """The information sets of such a run start at period 1 and at every unanticipated date; in each of them the
+    unknowns are the unanticipated instruments of its first period and the anticipated instruments not yet in the
+    past, the targets are the unanticipated targets of its first period and the anticipated targets not yet in the
+    past.  Admissible = every information set is square with a well-conditioned impact matrix (from unplanned unit
+    simulations started in that period); only then the targets must be hit.  Asserted: exogenized cells equal their
+    inputs, every other shock cell is unchanged (nothing is said about the path being one simulation: the returned
+    anticipated shock is the one of the last information set)."""
+    j, i, d1, k, l, d2 = plan_desc
+    amp = 0.1 if spec.log else 1.0
+    span = START >> (START + N - 1)
+    case = {"spec": spec.to_json(), "mixed_plan": list(plan_desc)}
+
+    def bad(check, detail, **extra):
+        sig = {"mode": "mixed", "k": 2, "leads": spec.max_lead() > 0, "log": spec.log}
+        sig.update({k_: v for k_, v in extra.items() if k_ in ("error", "what")})
+        res.violation(check, sig, case, "%s mixed plan %r: %s" % (spec.name, plan_desc, detail))
+
+    def val(db, n_, d):
+        return db[n_].get_data(START + d - 1)[0, 0]
+
+    def unit(frame_start, shock_name_, date):
+        sp = (START + frame_start - 1) >> (START + N - 1)
+        db0 = ir.Databox.steady(m, sp, deviation=False)
+        z = simulate(m, db0, sp)
+        db1 = ir.Databox.steady(m, sp, deviation=False)
+        db1[shock_name_][START + date - 1] = 1.0
+        r = simulate(m, db1, sp)
+        return z, r
+
+    def resp(z, r, var, date):
+        a, b = val(r, var, date), val(z, var, date)
+        return np.log(a / b) if spec.log else a - b
+    frames = sorted({1, d1})
+    for f in frames:
+        unknowns = ([("u", spec.shk(i), d1)] if f == d1 else []) + ([("a", "ant_" + spec.shk(l), d2)] if d2 >= f else [])
+        targets = ([(spec.var(j), d1)] if f == d1 else []) + ([(spec.var(k), d2)] if d2 >= f else [])
+        if not unknowns and not targets:
+            continue
+        if len(unknowns) != len(targets):
+            res.exclude("mixed_plan_information_set_not_square")
+            return
+        M = np.zeros((len(targets), len(unknowns)))
+        for c_, (kind_, sn, dt_) in enumerate(unknowns):
+            z, r = unit(f, sn, dt_)
+            res.ev(2)
+            for r_, (vn, dtt) in enumerate(targets):
+                M[r_, c_] = resp(z, r, vn, dtt)
+        if not np.all(np.isfinite(M)) or np.linalg.matrix_rank(M, tol=1e-9) < len(targets) or np.linalg.cond(M) > 1e4:
+            res.exclude("mixed_plan_singular_or_ill_conditioned_information_set")
+            return
+    db_in = ir.Databox.steady(m, span, deviation=False)
+    o1, o2 = val(db_in, spec.var(j), d1), val(db_in, spec.var(k), d2)
+    t1 = o1 * np.exp(0.5 * amp) if spec.log else o1 + 0.5
+    t2 = o2 * np.exp(-0.3 * amp) if spec.log else o2 - 0.3
+    db_in[spec.var(j)][START + d1 - 1] = t1
+    db_in[spec.var(k)][START + d2 - 1] = t2
+    plan = ir.SimulationPlan(m, span)
+    plan.exogenize_unanticipated((START + d1 - 1,), spec.var(j))
+    plan.endogenize_unanticipated((START + d1 - 1,), spec.shk(i))
+    plan.exogenize_anticipated((START + d2 - 1,), spec.var(k))
+    plan.endogenize_anticipated((START + d2 - 1,), "ant_" + spec.shk(l))
+    res.ev()
+    try:
+        out = simulate(m, db_in, span, plan=plan)
+    except Exception as e:
+        bad("exception", "%s: %s" % (type(e).__name__, str(e)[:300]), error=type(e).__name__)
+        return
+    res.nt((spec.name, "mixed") + tuple(plan_desc))
+    res.count("mixed_plans_judged")
+    g1, g2 = val(out, spec.var(j), d1), val(out, spec.var(k), d2)
+    if not (np.isclose(g1, t1, rtol=1e-7, atol=1e-7) and np.isclose(g2, t2, rtol=1e-7, atol=1e-7)):
+        bad("target_missed", "targets (%.10g, %.10g), got (%.10g, %.10g)" % (t1, t2, g1, g2), what="mixed")
+    endo = {(spec.shk(i), d1), ("ant_" + spec.shk(l), d2)}
+    for n_ in [spec.shk(q) for q in range(spec.n)] + ["ant_" + spec.shk(q) for q in range(spec.n)]:
+        a, b = np.nan_to_num(arr(out, n_, 0)), np.nan_to_num(arr(db_in, n_, 0))
+        for d in range(1, N + 1):
+            if (n_, d) not in endo and not np.isclose(a[d - 1], b[d - 1], rtol=0, atol=1e-10):
+                bad("other_shock_changed", "%s at date %d: %.12g, input %.12g" % (n_, d, a[d - 1], b[d - 1]), what="mixed")
+
+
+def shard_mixed(item, res, ctx):
+    spec = linre.LinSpec.from_json(item["spec"])
+    m = build(spec)
+    plans = mixed_plans(spec)
+    for p_ in plans[item["lo"]: item["hi"]]:
+        try:
+            check_mixed_plan(spec, m, p_, res, ctx)
+        except Exception as e:
+            import traceback
+            res.violation("harness_or_api_exception", {"error": type(e).__name__, "mode": "mixed"}, {"spec": item["spec"], "mixed_plan": list(p_)},
+                          traceback.format_exc()[-900:])
+
+
 def shard(item, res, ctx):
     spec = linre.LinSpec.from_json(item["spec"])
     m = build(spec)
@@ -408,6 +517,13 @@ def run(ctx, total, info):
         for lo in range(0, P, step):
             shards.append({"spec": spec.to_json(), "lo": lo, "hi": lo + step})
     engine.run_shards(__name__, "shard", shards, ctx, total)
+    mshards = []
+    for spec in models(ctx.tier):
+        if spec.n >= 2:
+            P = len(mixed_plans(spec))
+            for lo in range(0, P, 24):
+                mshards.append({"spec": spec.to_json(), "lo": lo, "hi": lo + 24})
+    engine.run_shards(__name__, "shard_mixed", mshards, ctx, total)
     info["plans_enumerated"] = n_plans
     info["exhaustive"] = True
     info["bound_completed"] = 2 if ctx.quick else 3
@@ -418,13 +534,17 @@ def run(ctx, total, info):
                       "plans_ending_on_the_last_period": (c.get("plans_ending_on_the_last_period", 0), 1500),
                       "planned_simulations_split_frames": (c.get("planned_simulations_split_frames", 0), 3000),
                       "plans_with_unanticipated_bystander": (c.get("plans_with_unanticipated_bystander", 0), 400),
-                      "planned_simulations_edited_plan": (c.get("planned_simulations_edited_plan", 0), 1500)}
+                      "planned_simulations_edited_plan": (c.get("planned_simulations_edited_plan", 0), 1500),
+                      "mixed_plans_judged": (c.get("mixed_plans_judged", 0), 100)}
 
 
 def replay(case):
     res = engine.Result()
     spec = linre.LinSpec.from_json(case["spec"])
     m = build(spec)
+    if "mixed_plan" in case:
+        check_mixed_plan(spec, m, tuple(case["mixed_plan"]), res, engine.Ctx("quick", 0))
+        return ["%s %s %s" % (v["check"], engine.sigkey(v["signature"]), v["detail"]) for v in res.violations]
     p = case["plan"]
     desc = (p[0], [tuple(t) for t in p[1]], [tuple(i) for i in p[2]])
     check_plan(spec, m, desc, res, engine.Ctx("quick", 0), ("first_order", "stacked_time"), n_per=int(case.get("n_per", N)))
